@@ -22,6 +22,7 @@ type SpecEnv struct {
 	pkg   string
 	inOld bool
 	entryParams bool // parameter names denote entry values (requires/ensures)
+	held  map[string]bool // mutexes held at the evaluation point (nil: assume context)
 	errs  []string
 }
 
@@ -570,9 +571,28 @@ func (env *SpecEnv) call(x *CallE) *Val {
 			env.fail("%v", err)
 		}
 		return boolVal(eq("(if-tag "+vc.term(env.eval(x.Args[0]))+")", vc.typeTag(t)))
+	case "held":
+		// held(x.mu): the mutex is held at this point
+		argn(1)
+		mv := env.addrOf(x.Args[0])
+		if mv.P == nil {
+			env.fail("held() expects a mutex field")
+		}
+		if env.held == nil {
+			return boolVal("true")
+		}
+		if env.held[mv.P.Heap+"@"+mv.P.Ref] {
+			return boolVal("true")
+		}
+		return boolVal("false")
 	case "allocated":
 		argn(1)
 		return boolVal(sel(env.curHeap().Get("$alloc"), env.refOf(env.eval(x.Args[0]))))
+	case "arr":
+		// arr(b): the backing array of a byte slice / array (indices are absolute)
+		argn(1)
+		a, _ := env.arrOf(env.eval(x.Args[0]))
+		return &Val{T: a, Typ: types.NewArray(types.Typ[types.Byte], 0)}
 	case "base":
 		argn(1)
 		return intVal(vc.slice(env.eval(x.Args[0])).Base)
@@ -613,6 +633,38 @@ func (env *SpecEnv) call(x *CallE) *Val {
 	}
 	env.fail("unknown spec function %s", fname)
 	return nil
+}
+
+// addrOf evaluates x.f to the address of field f (an interior pointer).
+func (env *SpecEnv) addrOf(e Expr) *Val {
+	vc := env.VC()
+	s, ok := e.(*Sel)
+	if !ok {
+		return env.eval(e)
+	}
+	base := env.eval(s.X)
+	t := base.Typ
+	bt := t
+	if pt, ok := t.Underlying().(*types.Pointer); ok {
+		bt = pt.Elem()
+	}
+	var pkg *types.Package
+	if n, ok := types.Unalias(bt).(*types.Named); ok {
+		pkg = n.Obj().Pkg()
+	}
+	_, path, _ := types.LookupFieldOrMethod(t, true, pkg, s.Name)
+	if len(path) == 0 {
+		env.fail("no field %s in %s", s.Name, t)
+	}
+	cur := base
+	for _, idx := range path {
+		p := vc.fieldPtr(cur, idx)
+		if p == nil {
+			env.fail("cannot take the address of %s", e)
+		}
+		cur = &Val{P: p, Typ: types.NewPointer(p.Elem)}
+	}
+	return cur
 }
 
 func (env *SpecEnv) lenOf(v *Val) Term {
